@@ -28,6 +28,7 @@ package middleware
 //@   ensures others: forall k Iface :: k != ridKey() ==> ctxVal(result, k) == ctxVal(ctx, k)
 //@   ensures nonnil: result != nil
 //@   modifies nothing
+//@   modifies nothing
 
 // ---- tracing ----------------------------------------------------------------------
 
@@ -61,5 +62,15 @@ package middleware
 //@   ensures* span: shas(result, TraceSpanIDKey) && sval(result, TraceSpanIDKey) == spanID
 //@   ensures* parent: parentID != "" ==> shas(result, TraceParentSpanIDKey) && sval(result, TraceParentSpanIDKey) == parentID
 //@   ensures* noparent: parentID == "" ==> ctxVal(result, iface(string, TraceParentSpanIDKey)) == ctxVal(ctx, iface(string, TraceParentSpanIDKey))
+//@   ensures nonnil: result != nil
+//@   modifies nothing
+//@   modifies nothing
+
+//@ func NewFixedSampler
+//@   ensures fixed: typeIs(result, fixedSampler) && result.val == samplingPercent
+//@   modifies nothing
+
+//@ func (*TraceOptions).NewSampler
+//@   requires o != nil
 //@   ensures nonnil: result != nil
 //@   modifies nothing
